@@ -496,9 +496,10 @@ PhotonSourceSpectrum:
   type: Monochromatic
   frequency: 13.6 eV
 DensityGridWriter:
-  type: AsciiFile
+  type: %s
   prefix: snap
-""" % (tbi_cells(c) + tuple(c.get("layout", (2, 2, 2))) + (b(c.get("temperature", False)),))
+  padding: 3
+""" % (tbi_cells(c) + tuple(c.get("layout", (2, 2, 2))) + (b(c.get("temperature", False)), c.get("writer", "AsciiFile")))
     if c.get("source", "inside") == "inside":
         t += "PhotonSourceDistribution:\n  type: SingleStar\n  position: [0.55 m, 0.55 m, 0.55 m]\n  luminosity: 1.e40 s^-1\n"
     else:
@@ -709,6 +710,95 @@ def san_summary(log):
     return (m.group(1) if m else "") + " || " + " <- ".join(f.strip()[:120] for f in frames)
 
 
+def source_constants(ctx):
+    """sizes of the implementation's internal blocks / buffers, read from the source of the tree
+    under test so that a changed constant moves the runs with it (fail soft to the literals)"""
+    src = os.path.join(vlib.REPO, "src")
+    out = {}
+    try:
+        text = open(os.path.join(src, "GadgetDensityGridWriter.cpp"), encoding="utf-8").read()
+        bs = sorted({int(x) for x in re.findall(r"\bblocksize\s*=\s*(\d+)\s*;", text)})
+        bs = [x for x in bs if 8 <= x <= 200000]
+    except OSError:
+        bs = []
+    if not bs:
+        ctx.notes.append("C12: the snapshot writer's blocksize was not found in GadgetDensityGridWriter.cpp; the literal 10000 is used for the block-crossing runs")
+        bs = [10000]
+    out["writer_blocksize"] = bs
+    try:
+        m = re.search(r"#define\s+PHOTONBUFFER_SIZE\s+(\d+)", open(os.path.join(src, "PhotonBuffer.hpp"), encoding="utf-8").read())
+        pb = int(m.group(1)) if m else None
+    except OSError:
+        pb = None
+    if not pb or not (2 <= pb <= 100000):
+        ctx.notes.append("C12: PHOTONBUFFER_SIZE was not found in PhotonBuffer.hpp; the literal 200 is used for the photon-batch crossing runs")
+        pb = 200
+    out["photon_buffer_size"] = pb
+    ctx.cov["source_constants"] = out
+    return out
+
+
+def dims_for(target, rel):
+    """numbers of cells (nx, ny, nz) of one subgrid, not too elongated, whose product is the
+    largest below / equal to / the smallest above `target` (None when no such box exists)"""
+    r = max(2, int(round(target ** (1. / 3.))))
+    best = None
+    for a in range(max(2, r // 2), 2 * r + 2):
+        for bb in range(a, 2 * r + 2):
+            for cc in {target // (a * bb) - 1, target // (a * bb), target // (a * bb) + 1}:
+                if cc < bb or cc > 4 * a:
+                    continue
+                n = a * bb * cc
+                ok = n < target if rel == "below" else n == target if rel == "at" else n > target
+                if not ok:
+                    continue
+                score = (abs(n - target), cc - a)
+                if best is None or score < best[0]:
+                    best = (score, (a, bb, cc))
+    return best[1] if best else None
+
+
+def block_crossing_items(ctx):
+    """subgrids whose number of cells crosses the snapshot writer's internal block size (just
+    below / exactly at / just above one block, above two blocks), for both writer overloads the
+    task-based modes reach; photon numbers that cross the photon buffer size"""
+    k = source_constants(ctx)
+    items = []
+    for B in k["writer_blocksize"]:
+        cases = [("below", dims_for(B, "below")), ("at", dims_for(B, "at")), ("above", dims_for(B, "above")), ("above-two-blocks", dims_for(2 * B, "above"))]
+        for i, (rel, dims) in enumerate(cases):
+            if dims is None:
+                continue
+            thorough_only = rel == "above-two-blocks"
+            if thorough_only and not ctx.thorough:
+                continue
+            dims = tuple(dims[(j + i) % 3] for j in range(3))     # the long axis rotates
+            # task-based RHD, HydroDensitySubGrid overload: two hydro steps, the final snapshot is always written
+            c = dict(layout=(1, 1, 1), cells=dims, live=True, total_time=0.004, snaptime=0.004)
+            items.append(dict(name="rhd-writer-block-%s-%d-cells" % (rel, dims[0] * dims[1] * dims[2]), kind="rhd-block", param=rhd_param(c), threads=2,
+                              stages=[(["--task-based-rhd", "--number-of-steps", "2"], [r"snap\d+\.hdf5"])], san_quick=(rel == "above")))
+            # task-based photoionization, DensitySubGrid overload of the same writer
+            c = dict(layout=(1, 1, 1), cells=dims, writer="Gadget", photons=k["photon_buffer_size"] + 1, iterations=1, copy_level=0, ntasks=2000, nbuf=500, queue=1000)
+            items.append(dict(name="tbi-writer-block-%s-%d-cells" % (rel, dims[0] * dims[1] * dims[2]), kind="tbi-block", param=tbi_param(c), threads=1,
+                              stages=[(["--task-based"], [r"snap\d+\.hdf5"])], san_quick=(rel == "above")))
+        if ctx.thorough:
+            d = dims_for(B, "above")
+            if d:
+                c = dict(layout=(2, 1, 1), cells=d, live=True, mask=True, total_time=0.004, snaptime=0.004)
+                items.append(dict(name="rhd-writer-block-above-two-subgrids", kind="rhd-block", param=rhd_param(c), threads=2,
+                                  stages=[(["--task-based-rhd", "--number-of-steps", "2"], [r"snap\d+\.hdf5"])], san_quick=False))
+                c = dict(layout=(1, 2, 1), cells=d, writer="Gadget", diffuse=True, photons=1000, iterations=1, copy_level=1, ntasks=3000, nbuf=800, queue=1500)
+                items.append(dict(name="tbi-writer-block-above-two-subgrids", kind="tbi-block", param=tbi_param(c), threads=2,
+                                  stages=[(["--task-based"], [r"snap\d+\.hdf5"])], san_quick=False))
+    P = k["photon_buffer_size"]
+    for n in [P - 1, P, P + 1] + ([2 * P, 2 * P + 1] if ctx.thorough else []):
+        c = dict(cells=(2, 3, 2), layout=(2, 2, 2), photons=n, iterations=2, diffuse=True, copy_level=1, ntasks=2000, nbuf=300, queue=1000)
+        items.append(dict(name="tbi-photon-batch-%d" % n, kind="tbi", param=tbi_param(c), threads=2, stages=[(["--task-based"], [r"snap\d+\.txt"])], san_quick=(n == P + 1)))
+    c = dict(layout=(2, 2, 1), cells=(2, 2, 3), radiation=True, diffuse=True, photons=2 * P + 1, iterations=2, total_time=0.002, radtime=0.001, snaptime=0.001, **SMALL)
+    items.append(dict(name="rhd-photon-batch-%d" % (2 * P + 1), kind="rhd-radiation", param=rhd_param(c), threads=2, stages=[(["--task-based-rhd"], [r"snap\d+\.hdf5"])], san_quick=False))
+    return items
+
+
 def run_plan(ctx):
     """every whole run of this tier: list of dicts (name, kind, stages [(args, expect)], param, threads, aux, key, san_quick)"""
     plan = []
@@ -717,6 +807,7 @@ def run_plan(ctx):
         kind = "rhd-race" if "-race-" in name else "rhd-radiation" if c.get("radiation") else "rhd"
         plan.append(dict(name=name, kind=kind, param=rhd_param(c), threads=threads,
                          stages=[(["--task-based-rhd"], live_expect(c))], san_quick=sq, repeat=repeat))
+    plan += block_crossing_items(ctx)
     # recorded finding: a source outside the box (exactly one such configuration, stable key)
     c = dict(layout=(2, 2, 1), anchor=(0.1, -0.3, 0.7), sides=(1.1, 1.1, 1.1), source="default")
     plan.append(dict(name="rhd-source-outside-box", kind="finding", param=rhd_param(c), threads=1, stages=[(["--task-based-rhd", "--number-of-steps", "2"], [])],
